@@ -53,7 +53,10 @@ def c16_d(ctx):
                     # the window was given a name (`let mut datagram = &buf[..n]`): every definition counts
                     wins = [simp(d) for d in ebu.var_defs(win[1])] or [win]
                 bound = None
+                inclusive = False
                 for x in [y for w_ in wins for y in walk(w_)]:
+                    if x[0] == "agg" and x[2].endswith(("ops::RangeToInclusive", "ops::RangeInclusive")) and x[5]:
+                        inclusive = True  # `..=k` takes k + 1 bytes: one more than the bound
                     if x[0] == "agg" and x[2].endswith(("ops::RangeTo", "ops::Range", "ops::RangeToInclusive")) and x[5]:
                         bound = x[5][-1]
                     elif x[0] == "call" and (callee_name(x) or "").split("::")[-1] in ("take", "split_at", "truncate") and len(x[3]) > 1:
@@ -81,7 +84,9 @@ def c16_d(ctx):
                         okb = True
                     elif bound[0] == "call" and (callee_name(bound) or "").split("::")[-1] == "min" and any(expr_str(simp(a)) in cnt_names for a in bound[3]):
                         okb = True
-                if okb:
+                if okb and inclusive:
+                    yield bad("C16-D", key, at(f, t["span"]["line"]), "the window handed to the decoder is an inclusive range ending at %s: it holds one byte more than were received - the byte an earlier datagram left behind it" % bt)
+                elif okb:
                     yield ok("C16-D", key, at(f, t["span"]["line"]), {"decoder_input": expr_str(win)[:200], "bound": bt})
                 else:
                     yield bad("C16-D", key, at(f, t["span"]["line"]), "the window handed to the decoder ends at %s, which is not the received byte count (or a minimum with it): bytes left by an earlier datagram can be decoded" % (bt or expr_str(win)[:160]))
